@@ -261,6 +261,8 @@ pub struct Env {
     pub refs: Option<RefSession>,
     pub pending_join: Option<PendingJoin>,
     pub sent_down: Vec<Vec<u8>>,
+    /// every frame the device handed to the radio in this run (for reflected copies)
+    pub sent_up: Vec<Vec<u8>>,
     /// number of delivered frames the property statements are silent about (oracles stand down)
     pub unspecified_seen: u64,
     /// full-stack configuration: (kind, detail, message) of every disagreement between what the MAC handed to the
@@ -313,6 +315,7 @@ impl Env {
             refs,
             pending_join: None,
             sent_down: Vec::new(),
+            sent_up: Vec::new(),
             unspecified_seen: 0,
             stack_alerts: Vec::new(),
             restore_settings_first: None,
@@ -429,6 +432,7 @@ impl Env {
 
     /// Record a transmitted frame; keeps the reference join state up to date.
     fn note_uplink(&mut self, bytes: &[u8]) {
+        self.sent_up.push(bytes.to_vec());
         if let Some(jr) = rc::parse_join_request(bytes) {
             // a JoinRequest discards the session on the device side; the network forgets it too
             self.pending_join = Some(PendingJoin { dev_nonce: jr.dev_nonce });
@@ -448,12 +452,20 @@ impl Env {
                     self.sent_down[*k as usize % self.sent_down.len()].clone()
                 }
             }
+            FrameSpec::Echo(k) => {
+                if self.sent_up.is_empty() {
+                    vec![0x40, 0, 0, 0, 0, 0, 0, 0, 0, 0, 0, 0]
+                } else {
+                    self.bump("fault.uplink-reflected");
+                    self.sent_up[self.sent_up.len() - 1 - (*k as usize % self.sent_up.len())].clone()
+                }
+            }
             FrameSpec::Data(d) => self.materialise_data(d),
             FrameSpec::JoinAccept(j) => self.materialise_ja(j),
         };
         let mut bytes = bytes;
         bytes.truncate(255);
-        if !matches!(spec, FrameSpec::Replay(_)) {
+        if !matches!(spec, FrameSpec::Replay(_) | FrameSpec::Echo(_)) {
             self.sent_down.push(bytes.clone());
         }
         bytes
@@ -597,12 +609,10 @@ impl Env {
             return Verdict::Unspecified("no-window-configured");
         }
         if p.is_uplink() {
-            // a reflected uplink-type frame can only verify if it is one of the device's own uplinks
-            return if rc::mic_ok(bytes, &p, &sess.keys.nwk, cand_counter(sess.last_down, p.fcnt16).unwrap_or(p.fcnt16 as u32)) {
-                Verdict::Unspecified("reflected-uplink")
-            } else {
-                Verdict::Reject("uplink-type")
-            };
+            // Uplink message types travel from device to network only. A frame of that type heard by the device is
+            // not a downlink of its network server, whatever its MIC: the MIC of a downlink is computed with the
+            // downlink direction bit, so the device's own reflected uplink is not authentic.
+            return Verdict::Reject("uplink-type");
         }
         let Some(n) = cand_counter(sess.last_down, p.fcnt16) else {
             return Verdict::Reject("counter-not-fresh");
